@@ -34,7 +34,7 @@ def to_trace(log_lines):
             out.append(ln)
         elif e["e"] == "call":
             out.append(json.dumps(dict(e="op", op=e["op"], k=e["k"], v=e["v"], a=e["a"], d=e["d"], p=e["p"], var=e["var"],
-                                       kv=e["kv"], now=e["now"], ret=e["ret"], rc=e["rc"], rl=e["rl"], size=-1, empty=0,
+                                       kv=e["kv"], now=e["now"], ret=e["ret"], rc=e["rc"], rl=e["rl"], size=-1, size2=-1, empty=0,
                                        cap=0, obs=[], skip=list(range(1, keys + 1))), separators=(",", ":")))
     return out
 
